@@ -243,7 +243,9 @@ def main(ck):
                                        K_DISC * EPS * sn_d, nefc), bucket='inverse-discrete')
         if nefc and solver != PGS:
           f_inv = np.array(d4.efc_force, dtype=np.float64)[:nefc]
-          e = float(np.linalg.norm(f_inv - f_fwd) / (EPS * condM * np.linalg.norm(fs + P.D * (aJ @ (np.abs(ad) + vs))) + 1e-300))
+          # (the conversion solve couples the dofs of a tree: every dof carries rounding of the size of the largest one)
+          amax = float(np.max(np.abs(ad) + np.abs(a), initial=0.0))
+          e = float(np.linalg.norm(f_inv - f_fwd) / (EPS * condM * np.linalg.norm(fs + P.D * (aJ @ (np.abs(ad) + vs + amax))) + 1e-300))
           worst['efc_disc'] = max(worst['efc_disc'], e)
           if e > K_EFC_D:
             raise Violation('%s: efc_force of the discrete inverse differs from the forward one: |df| = %.6g (%.3g eps)' % (
